@@ -6,6 +6,7 @@
 -/
 import PydapModel.Handler
 import Proofs.Handler
+import Proofs.HandlerWF
 namespace Pydap.C06
 open Pydap Pydap.Handler
 
@@ -93,9 +94,37 @@ theorem C06_ascii_complete (fmt : Int → Str) (id : Str) (b : Base) (h : b.WF) 
     rw [← List.unzip_snd, List.unzip_zip (by omega)]
   · rw [← List.unzip_fst, List.unzip_zip (by omega)]
 
-/-- ASCII completeness for a whole constrained dataset: well-formedness is all the printer needs -/
-theorem C06_ascii_total (fmt : Int → Str) (cds : Dataset) (h : cds.WF) :
-    ∃ t, asciiData fmt cds = .ok t := asciiData_ok fmt cds h
+/-- **ASCII completes without error, for every query**: on a well-formed source dataset, whenever
+    the query yields a constrained dataset (for valid and for any other constraint alike), that
+    dataset is well formed, its ASCII listing succeeds, and the ASCII response is the declaration,
+    the separator and that listing.  Well-formedness of the constrained dataset is proved, not
+    assumed: `constrained_wf` covers selection, shorthand, projection of variables, structure and
+    grid members, sequence columns, record ranges and hyperslabs. -/
+theorem C06_ascii_total (fmt : Int → Str) (ds cds : Dataset) (q : Str) (hds : ds.WF)
+    (h : constrained ds q = .ok cds) :
+    cds.WF ∧ ∃ t, asciiData fmt cds = .ok t ∧
+      respond fmt ds cs!"ascii" q = .ok .ascii (.complete (ddsText cds ++ dashes ++ t)) := by
+  have hw := constrained_wf ds cds q hds h
+  obtain ⟨t, ht⟩ := asciiData_ok fmt cds hw
+  exact ⟨hw, t, ht, (C06_same_decl fmt ds q cds h).2.2 t ht⟩
+
+/-- every array of the constrained dataset carries exactly as many values as the product of the
+    shape its declaration prints — the shape of the DDS, of the data response and the number of
+    ASCII lines agree for every variable kind the constraint can leave behind -/
+theorem C06_constrained_counts (ds cds : Dataset) (q : Str) (hds : ds.WF)
+    (h : constrained ds q = .ok cds) :
+    ∀ v ∈ cds.vars, match v with
+      | .base b => b.data.length = prod b.shape
+      | .struct _ ms => ∀ m ∈ ms, m.data.length = prod m.shape
+      | .grid _ a ms => a.data.length = prod a.shape ∧ ∀ m ∈ ms, m.data.length = prod m.shape
+      | .seq _ cols rows => ∀ r ∈ rows, r.length = cols.length := by
+  intro v hv
+  have hw := constrained_wf ds cds q hds h v hv
+  cases v with
+  | base b => exact hw.1
+  | struct n ms => exact fun m hm => (hw m hm).1
+  | grid n a ms => exact ⟨hw.1.1, fun m hm => (hw.2 m hm).1⟩
+  | seq n cols rows => exact hw
 
 /-- a hyperslab applied by `apply_projection` keeps an array well formed: the stored object has
     `.flat` and carries exactly the product of the new shape -/
@@ -117,5 +146,30 @@ example : respond intText dsA cs!"ascii" cs!"a[0:2:9]" = .ok .ascii (.complete
 example : respond intText dsA cs!"das" cs!"a[x]" = .ok .das (.complete cs!"Attributes {\n    a {\n    }\n}\n") := by
   decide +kernel
 example : constrained dsA cs!"a[x]" = .error .valueError := by decide +kernel
+example : dsA.WF := by
+  intro v hv; simp [dsA] at hv; subst hv; exact ⟨rfl, rfl⟩
+
+/-- a dataset with every variable kind: the hypotheses of `C06_ascii_total` are met by a query that
+    projects a grid member, slices a structure member, a grid and a sequence with a selection -/
+def dsB : Dataset := ⟨cs!"d", [
+  .struct cs!"st" [{ name := cs!"p", ty := cs!"Int16", shape := [2, 2], dims := [], data := [1, 2, 3, 4] }],
+  .grid cs!"g" { name := cs!"v", ty := cs!"Int32", shape := [3], dims := [cs!"x"], data := [7, 8, 9] }
+    [{ name := cs!"x", ty := cs!"Int32", shape := [3], dims := [cs!"x"], data := [0, 10, 20] }],
+  .seq cs!"s" [(cs!"i", cs!"Int32"), (cs!"j", cs!"Int32")] [[1, 5], [2, 6], [3, 7]]]⟩
+
+example : dsB.WF := by
+  intro v hv
+  simp only [dsB, List.mem_cons, List.mem_nil_iff, or_false] at hv
+  rcases hv with rfl | rfl | rfl
+  · intro m hm; simp at hm; subst hm; exact ⟨rfl, rfl⟩
+  · refine ⟨⟨rfl, rfl⟩, ?_⟩; intro m hm; simp at hm; subst hm; exact ⟨rfl, rfl⟩
+  · intro r hr; simp at hr; rcases hr with rfl | rfl | rfl <;> rfl
+example : constrained dsB cs!"st.p[0:1][1],g[1:2],s.j,s[0:1]&s.i>1"
+    = .ok ⟨cs!"d", [
+      .struct cs!"st" [{ name := cs!"p", ty := cs!"Int16", shape := [2, 1], dims := [], data := [2, 4] }],
+      .grid cs!"g" { name := cs!"v", ty := cs!"Int32", shape := [2], dims := [cs!"x"], data := [8, 9] }
+        [{ name := cs!"x", ty := cs!"Int32", shape := [2], dims := [cs!"x"], data := [10, 20] }],
+      .seq cs!"s" [(cs!"j", cs!"Int32")] [[6], [7]]]⟩ := by
+  decide +kernel
 
 end Pydap.C06
